@@ -26,7 +26,7 @@ class Stream:
 BASE_TRUST = [
     "Lean 4.33.0 kernel; axioms per theorem as listed under coverage.theorems (allowed: propext, Classical.choice, Quot.sound)",
     "no sorry/admit/native_decide/bv_decide/implemented_by/unsafe/user axioms (grep over the transitive sources on every run)",
-    "the correspondence check itself: /verif/harness/cmd/oracle (Go, links /repo's working tree with -tags verif), the compiled Lean driver (Lean compiler + runtime), /verif/checklib",
+    "the correspondence check itself: /verif/harness/cmd/oracle (Go, links /repo's working tree; built WITHOUT the verif tag for every request that needs no hook, with -tags verif only for lock recording / schedule control / registry dumps), the compiled Lean driver (Lean compiler + runtime), /verif/checklib",
 ]
 
 
